@@ -96,12 +96,19 @@ class C15Property:
         if entries is None:
             return self.verdict(chk, failing)
         rng = common.rng_for("C15", seed, "instances")
-        pools = c14.Pools(entries)
+        pools = c14.Pools(entries, picklable_only=True)
         # ---------------- class instances
         objs = []
         for entry in entries:
             for _ in range(N_INST[tier]):
                 objs.append((entry.key, pools.instance_of(entry, rng, 2)))
+            # every admissible value of every non-SymPy attribute at least once (classes, None, strings, module-level function)
+            for i, dom in enumerate(entry.attr_domain):
+                for v in dom:
+                    if c14.is_picklable_attr(v):
+                        attrs = [d[0] for d in entry.attr_domain]
+                        attrs[i] = v
+                        objs.append((entry.key, entry.build(*[pools.arg_for(f.name, rng, 1) for f in entry.sympy_fields], attrs=tuple(attrs))))
         for name, o in pools.helper_instances(rng).items():
             objs.append(("helper:" + name, o))
         stats = {"class_instances": len(objs), "with_nested_unevaluated_argument": 0, "with_non_default_attribute": 0,
@@ -128,6 +135,16 @@ class C15Property:
             elif back != o or sp.srepr(back) != sp.srepr(o) or type(back) is not type(o) or hash(back) != hash(o):
                 failing.append({"class": "pickle round trip does not reproduce an expression", "cls": key, "expr": sp.srepr(o)[:1500],
                                 "loaded": sp.srepr(back)[:1500]})
+            else:
+                # == goes through _hashable_content: look at the attribute VALUES and at what the loaded object unfolds to
+                ad = corr.attribute_differences(o, back)
+                if ad:
+                    failing.append({"class": "loaded expression has different non-SymPy attribute values", "cls": key,
+                                    "expr": sp.srepr(o)[:1200], "attributes": ad[:4],
+                                    "python": "loaded = pickle.loads(pickle.dumps(expr)); compare getattr(loaded, field) with getattr(expr, field)"})
+                elif not corr.digests_agree(corr.unfold_digest(o), corr.unfold_digest(back)):
+                    failing.append({"class": "loaded expression unfolds differently", "cls": key, "expr": sp.srepr(o)[:1200],
+                                    "evaluate_original": corr.unfold_digest(o)[:3], "evaluate_loaded": corr.unfold_digest(back)[:3]})
         # T2: the model's round trip on the same instances
         try:
             rts = corr.lean_roundtrips([o for _, o in objs], ctx)
@@ -182,8 +199,16 @@ class C15Property:
             except Exception as e:  # noqa: BLE001
                 chk.broken_correspondence("model record vs Lean round trip", f"{label}: {type(e).__name__}: {str(e)[-400:]}")
         # ---------------- fresh process (thorough; a small sample in quick)
-        sample = [("expr", o) for _, o in (objs if tier == "thorough" else objs[:: max(1, len(objs) // 12)])]
-        sample += [("model", m) for _, m in (models if tier == "thorough" else models[:1])]
+        # fresh interpreter (also in the quick tier): load, inspect attribute types, unfold, exercise the containers
+        if tier == "thorough":
+            sample = [("expr", o) for _, o in objs] + [("model", m) for _, m in models]
+        else:
+            with_attrs = [o for _, o in objs if corr.attr_digest(o)]
+            rest = [o for _, o in objs if not corr.attr_digest(o)]
+            sample = [("expr", o) for o in with_attrs[:40] + rest[:: max(1, len(rest) // 10)]]
+            # numeric evaluation for the model with Breit-Wigner dynamics (non-SymPy attributes), the
+            # others are loaded, inspected and their containers exercised
+            sample += [("model" if i == 1 else "model-shallow", m) for i, (_, m) in enumerate(models)]
         try:
             descs = corr.fresh_process_describe(sample)
             stats["fresh_process_objects"] = len(sample)
@@ -191,19 +216,37 @@ class C15Property:
                 failing.append({"class": "loading in a fresh process fails", "error": json.dumps(descs)[:1500]})
             else:
                 for (kind, o), d in zip(sample, descs):
-                    want = corr.describe(o)
-                    if kind == "model":
-                        want["numeric"] = corr.numeric_value(o)
-                        num_ok = _close(want["numeric"], d.get("numeric"))
+                    if "error" in d and len(d) == 1:
+                        failing.append({"class": "loading in a fresh process fails", "error": d["error"][-1200:]})
+                        continue
+                    want = corr.describe(o, deep=(kind != "model-shallow"))
+                    if kind.startswith("model"):
+                        num_ok = True
+                        if kind == "model":
+                            want["numeric"] = corr.numeric_value(o)
+                            num_ok = _close(want["numeric"], d.get("numeric"))
                         d2 = {k: v for k, v in d.items() if k != "numeric"}
                         w2 = {k: v for k, v in want.items() if k != "numeric"}
                         if json.loads(json.dumps(w2)) != d2 or not num_ok:
                             bad_attrs = [k for k in w2 if json.loads(json.dumps(w2[k])) != d2.get(k)]
-                            failing.append({"class": "model loaded in a fresh process differs", "attributes": bad_attrs,
-                                            "numeric_here": want["numeric"], "numeric_there": d.get("numeric")})
+                            detail = {}
+                            for k in bad_attrs[:3]:
+                                a, b = json.loads(json.dumps(w2[k])), d2.get(k)
+                                if isinstance(a, dict) and isinstance(b, dict):
+                                    detail[k] = {kk: [str(a[kk])[:150], str(b.get(kk))[:150]] for kk in a if a[kk] != b.get(kk)}
+                                elif isinstance(a, list) and isinstance(b, list):
+                                    detail[k] = next(([str(x)[:200], str(y)[:200]] for x, y in zip(a, b) if x != y), "length differs")
+                                else:
+                                    detail[k] = [str(a)[:200], str(b)[:200]]
+                            failing.append({"class": "model loaded in a fresh process differs", "attributes": bad_attrs, "here_vs_there": detail,
+                                            "numeric_here": want.get("numeric"), "numeric_there": d.get("numeric")})
                     elif json.loads(json.dumps(want)) != d:
+                        bad = [k for k in want if json.loads(json.dumps(want[k])) != d.get(k)]
+                        if bad == ["unfold"] and corr.digests_agree(want["unfold"], d.get("unfold", [])):
+                            continue
                         failing.append({"class": "expression loaded in a fresh process differs", "expr": want["srepr"][:1200],
-                                        "loaded": str(d.get("srepr"))[:1200]})
+                                        "differs_in": bad, "here": {k: str(want[k])[:300] for k in bad if k != "srepr"},
+                                        "there": {k: str(d.get(k))[:300] for k in bad if k != "srepr"}})
         except common.InfraError:
             raise
         except Exception as e:  # noqa: BLE001
@@ -271,9 +314,14 @@ MANIFEST = {
     "level_note": (
         "Trusted: Lean kernel + Mathlib (axioms propext, Classical.choice, Quot.sound); class-table extractor and SymPy<->S-expression converter "
         "(checked by the correspondence: every table class is instantiated with random nested arguments/attributes, pickled by the real "
-        "pickle, and the loaded object is compared with the model's round trip and with the original by ==, srepr, type and hash). Models: "
+        "pickle, and the loaded object is compared with the model's round trip and with the original by ==, srepr, type and hash, then — because == "
+        "goes through _hashable_content — by the VALUE of every non-SymPy attribute field by field (type; identity for classes/functions/None) "
+        "and by what evaluate() of every node returns; every admissible picklable attribute value occurs in every run). Models: "
         "4 formulated HelicityModels from corpus/C15 (no dynamics; Breit-Wigner with form factor and energy-dependent width = non-SymPy "
-        "attributes; canonical formalism; DalitzPlotDecomposition alignment) compared attribute by attribute (==, key order, srepr); quick "
-        "tier loads a sample in a fresh interpreter, thorough tier all objects plus a numeric evaluation of the intensity at one point."
+        "attributes; canonical formalism; DalitzPlotDecomposition alignment) compared attribute by attribute (==, key order, srepr, attribute values of every node) and "
+        "behaviourally: the public API of every container (ParameterValues by symbol / name / index, in, len, iteration, items, assignment "
+        "of the same value by symbol / name / index, missing keys; the OrderedDict attributes) gives the same outcome incl. exceptions on the "
+        "loaded model. Also in the quick tier a FRESH interpreter loads all instances with attributes and the four models, reports attribute "
+        "types, unfolding digests and container behaviour (numeric intensity for the Breit-Wigner model); thorough: all objects, all numerics."
     ),
 }
